@@ -1,1 +1,3 @@
 import PV.Props.C15
+import PV.Props.C01
+import PV.Props.C04
